@@ -17,8 +17,11 @@ MAXA = ["4", "100", "1", "16"]
 def sig(x):
     """signals as the protocol shows them: ints as they are, the MAPK preset's dicts by the tier they carry"""
     if isinstance(x, dict):
-        return x.get("tier", "d")
-    return x
+        x = x.get("tier", "d")
+    if isinstance(x, int) and not isinstance(x, bool):
+        return x
+    # anything else (a list of outputs, an object ...) is shown as one token the protocol cannot mistake for a field
+    return "obj<" + "".join(ch if ch.isalnum() or ch in "-_" else "_" for ch in repr(x))[:60] + ">"
 
 
 class C19(Prop):
@@ -64,9 +67,22 @@ class C19(Prop):
             k = rng.choice([1, 2, 2, 3, 3, 4, 5, 6])
             stages = [self._rand_stage(rng) for _ in range(k)]
             case = self._case(rng.random() < 0.5, rng.choice(MAXA), stages, rng.choice([0, 1, 2, 7]), "random")
+            r0 = rng.random()
+            if r0 < 0.15:
+                # construction mode: run() must behave the same whatever `mode` the cascade was built with
+                case["lines"][0] += " " + rng.choice(["parallel", "conditional", "amplifying"])
+            elif r0 < 0.3:
+                # an on_stage_complete observer (returns, or raises at one stage / always)
+                case["lines"].insert(1, "observer " + rng.choice(["ok", "always", f"at:{rng.randrange(k)}", f"at:{rng.randrange(k)}"]))
+                yield case
+                continue
+            elif r0 < 0.4:
+                case["lines"].insert(-1, rng.choice(["shadow plain", "shadow mapk 5 5 5"]))
             if it % 17 == 5:
                 lines = [f"mapk {show_bool(rng.random() < 0.5)} {rng.choice(['100', '1000', '4', '2000'])} "
                          f"{rng.choice(AMPS + ['10'])} {rng.choice(AMPS + ['10'])} {rng.choice(AMPS + ['10'])}"]
+                if rng.random() < 0.5:
+                    lines.append(f"shadow mapk {rng.choice(['5', '3', '1'])} 5 5")     # a second preset instance alive
                 for _ in range(rng.randint(1, 3)):
                     lines.append("run 0")          # 0 = a raw (non-dict) input; tiers are rendered 1, 2, 3
                     if rng.random() < 0.4:
@@ -124,9 +140,29 @@ class C19(Prop):
                                      "note": "exhaustive: two stages sharing a name"})
         mapk = [{"lines": [f"mapk {h} {mx} {a} {a} {a}", "run 0", "run 0", "stats"], "note": "MAPK preset"}
                 for h in "01" for mx in ("100", "1000", "4") for a in ("10", "1", "0", "1/2")]
+        mapk += [{"lines": [f"mapk {h} 1000 2 3 4", "run 0", "shadow mapk 5 5 5", "run 0", "stats"],
+                  "note": "MAPK preset with a second instance constructed in between"} for h in "01"]
+        # construction modes x small pipelines; observers x small pipelines
+        extra = []
+        small = [(cp, pr, eh, True, "2") for cp in ("none", "pass", "reject", "raise") for pr in ("ok", "raise")
+                 for eh in ("none", "ok", "raise")]
+        for halt in (True, False):
+            for s1 in small:
+                for mode in ("parallel", "conditional", "amplifying"):
+                    c = self._case(halt, "4", [s1, ("pass", "ok", "none", True, "2")], 1, "exhaustive construction mode")
+                    c["lines"][0] += " " + mode
+                    extra.append(c)
+                for ob in ("ok", "always", "at:0", "at:1"):
+                    for s2 in (("pass", "ok", "none", True, "2"), ("reject", "ok", "none", True, "2"),
+                               ("raise", "ok", "ok", False, "2")):
+                        c = self._case(halt, "4", [s1, s2], 1, "exhaustive observer")
+                        c["lines"].insert(1, f"observer {ob}")
+                        extra.append(c)
         return [{"name": f"all pipelines of <= {depth} stages over the behaviour alphabet x both halt settings",
                  "cases": cases},
                 {"name": "the shipped MAPK preset x halt x max amplification x tier factors", "cases": mapk},
+                {"name": "construction mode x 2-stage pipelines; on_stage_complete observer scripts x 2-stage pipelines",
+                 "cases": extra},
                 {"name": "same-object histories: gate replaced under the same name between runs; stages sharing a name",
                  "cases": hist}]
 
@@ -136,8 +172,10 @@ class C19(Prop):
         obs = []
         casc = None
         log = []
+        seen = []      # positions of the stages the on_stage_complete observer was shown during the current run
         cur = []       # descriptors of the stages currently in the cascade, in order (parallel to casc._stages)
         made = [0]
+        shadows = []
 
         class Boom(Exception):
             pass
@@ -188,8 +226,11 @@ class C19(Prop):
         for line in case["lines"]:
             t = line.split()
             try:
-                if t[0] == "cfg":
-                    casc = m.Cascade("c", halt_on_failure=t[1] == "1", max_amplification=float(Fraction(t[2])), silent=True)
+                if t[0] == "cfg" and len(t) in (3, 4):
+                    mode = {"parallel": m.CascadeMode.PARALLEL, "conditional": m.CascadeMode.CONDITIONAL,
+                            "amplifying": m.CascadeMode.AMPLIFYING}.get(t[3] if len(t) == 4 else "", m.CascadeMode.SEQUENTIAL)
+                    casc = m.Cascade("c", mode=mode, halt_on_failure=t[1] == "1", max_amplification=float(Fraction(t[2])),
+                                     silent=True)
                     log.clear()
                     cur.clear()
                     made[0] = 0
@@ -227,6 +268,33 @@ class C19(Prop):
                         if st_.checkpoint is not None:
                             st_.checkpoint = wrapc(st_.checkpoint)
                     obs.append("ok")
+                elif t[0] == "observer" and len(t) == 2:
+                    ensure()
+                    k = t[1]
+
+                    def mkobs(k=k):
+                        def ob(stage_result):
+                            seen.append(next((j for j, d in enumerate(cur) if d["name"] == stage_result.stage_name), -1))
+                            # position of the stage the result belongs to = number of results recorded so far is not
+                            # available here; use the stage's current position by name among the live descriptors
+                            pos = next((j for j, d in enumerate(cur) if d["name"] == stage_result.stage_name), -1)
+                            if k == "always" or (k.startswith("at:") and pos == int(k[3:])):
+                                raise fault("raise0" if made[0] % 2 else "raise", "observer")
+                        return ob
+                    casc.on_stage_complete = None if k == "none" else mkobs()
+                    obs.append("ok")
+                elif t[0] == "shadow":
+                    # a second cascade object alive next to the one under test must not influence it
+                    if len(t) >= 5 and t[1] == "mapk":
+                        shadows.append(m.MAPKCascade(tier1_amplification=float(Fraction(t[2])),
+                                                     tier2_amplification=float(Fraction(t[3])),
+                                                     tier3_amplification=float(Fraction(t[4])), silent=True))
+                    else:
+                        sh = m.Cascade("shadow", silent=True)
+                        sh.add_stage(m.CascadeStage("s0", lambda x: x, amplification=3.0, checkpoint=lambda x: False))
+                        sh.run(1)
+                        shadows.append(sh)
+                    obs.append("ok")
                 elif t[0] == "stats" and len(t) == 1:
                     ensure()
                     g = casc.get_statistics()
@@ -255,15 +323,19 @@ class C19(Prop):
                 elif t[0] == "run" and len(t) == 2:
                     ensure()
                     del log[:]
+                    del seen[:]
                     r = casc.run(int(t[1]))
                     st = {"completed": "c", "failed": "f", "skipped": "s", "blocked": "b"}
-                    res = ",".join(f"{j}{st.get(s.status.value, '?')}:{show_rat(s.amplification_factor)}"
+                    names = [d["name"] for d in cur]
+                    uniq = len(set(names)) == len(names)
+                    res = ",".join(f"{names.index(s.stage_name) if uniq and s.stage_name in names else j}"
+                                   f"{st.get(s.status.value, '?')}:{show_rat(s.amplification_factor)}"
                                    for j, s in enumerate(r.stage_results))
                     fin = "none" if r.final_output is None else f"some:{sig(r.final_output)}"
                     blk = "none" if r.blocked_at is None else str(r.blocked_at)
                     obs.append(" ".join([show_bool(r.success), fin, str(r.stages_completed), str(r.stages_total),
                                          show_rat(r.total_amplification), blk, "[" + res + "]",
-                                         "[" + ",".join(log) + "]"]))
+                                         "[" + ",".join(log) + "]", "[" + ",".join(map(str, seen)) + "]"]))
                 else:
                     obs.append("bad-op")
             except Exception as e:
@@ -276,15 +348,18 @@ class C19(Prop):
         halt, maxa = True, Fraction(100)
         beh = []          # (cp, pr, eh, req, amp, creation id, name) of the stages currently in the pipeline
         made = 0
+        observer = "none"
         for idx, (line, o) in enumerate(zip(case["lines"], obs)):
             t = line.split()
             if t[0] == "mapk" and len(t) == 6:
-                halt, maxa, made = t[1] == "1", Fraction(t[2]), 3
+                halt, maxa, made, observer = t[1] == "1", Fraction(t[2]), 3, "none"
                 beh = [("none", "mapk1", "none", True, Fraction(t[3]), 0, "MAPKKK"),
                        ("mapk2", "mapk2", "none", True, Fraction(t[4]), 1, "MAPKK"),
                        ("mapk3", "mapk3", "none", True, Fraction(t[5]), 2, "MAPK")]
+            if t[0] == "observer" and len(t) == 2:
+                observer = t[1]
             if t[0] == "cfg":
-                halt, maxa, beh, made = t[1] == "1", Fraction(t[2]), [], 0
+                halt, maxa, beh, made, observer = t[1] == "1", Fraction(t[2]), [], 0, "none"
             elif t[0] == "stage" and len(t) in (6, 7):
                 beh.append((t[1], t[2], t[3], t[4] == "1", Fraction(t[5]), made, t[6] if len(t) == 7 else f"s{made}"))
                 made += 1
@@ -333,7 +408,13 @@ class C19(Prop):
                             if late:
                                 out.append(Violation("halt_runs_nothing_further", f"no callback after stage {i}",
                                                      f"{late}", idx))
+                # 2b. the observer is shown a stage only if its processor ran and it has a COMPLETED result
+                if len(f) > 8:
+                    for j in [x for x in f[8][1:-1].split(",") if x]:
+                        if not any(e.startswith(f"p{j}:") for e in log) or f"{j}c" not in [r_.split(":")[0] for r_ in res]:
+                            out.append(Violation("observer_sees_only_completed_stages", f"stage {j} completed", o, idx))
                 # 3. success iff every stage completed in order
+                # (an on_stage_complete observer, returning or raising, relaxes nothing)
                 all_c = [r_.split(":")[0] for r_ in res] == [f"{i}c" for i in range(len(beh))]
                 if success != all_c:
                     out.append(Violation("success_iff_all_completed_in_order", f"success={all_c}", o, idx))
